@@ -253,3 +253,9 @@ Proof.
   exact (conj qsum_R (conj qmean_R (conj progress_lr_spec (conj twin_loss_values (conj argmin_mask_found (conj sac_learned_spec critic_actor_terms_R)))))).
 Qed.
 Print Assumptions C07_twin_values_and_schedule.
+
+(* the unbiased variance that ties the advantage standard deviation handed to adv_norm_Q *)
+Theorem C07_advantage_variance : forall advs,
+  (adv_var_Q advs == qsum (map (fun a => (a - qmean advs) * (a - qmean advs)) advs) / (qlen advs - 1))%Q.
+Proof. exact adv_var_spec. Qed.
+Print Assumptions C07_advantage_variance.
